@@ -2154,3 +2154,6 @@ pub mod parse_errors {
         )
     }
 }
+
+/// `string.rs` and the comment wrapping that uses it (`src/verif_hooks/strings.rs`).
+pub mod strings;
